@@ -163,3 +163,12 @@ package ftp
 //@   callpre os.Create: under(fsroot(ftp), name)
 //@   callpre os.OpenFile: under(fsroot(ftp), name)
 //@   modifies *
+//
+// The working directory reported to the client is the driver's (a rooted, clean virtual path, see
+// Fs.CurDir), not a string the command keeps or builds from the client's argument.
+//@ func (commandPwd).Execute
+//@   callpre (*Conn).writeMessage: code == 257 && message == caller.conn.driver.gcwd
+//@   modifies *
+//@ func (commandCwd).Execute
+//@   callpre (*Conn).writeMessage: code == 250 ==> message == concat("Directory changed to ", caller.conn.driver.gcwd)
+//@   modifies *
